@@ -232,9 +232,93 @@ func dcGuardedAny(sink ssa.Instruction, alts ...DCons) bool {
 // condGuarded: every path to sink crosses an edge on which pred(cond, truth) holds.
 func condGuarded(sink ssa.Instruction, pred func(cond ssa.Value, truth bool) bool) bool {
 	return mustCross(sink, func(e edge) bool {
-		c, t, ok := edgeCond(e)
-		return ok && pred(c, t)
+		for _, cj := range edgeConjuncts(e) {
+			if pred(cj.cond, cj.truth) {
+				return true
+			}
+		}
+		return false
 	})
+}
+
+type condFact struct {
+	cond  ssa.Value
+	truth bool
+}
+
+// edgeConjuncts: the elementary conditions known to hold after taking edge e. `if a && b` stored in a phi holds both a and
+// b on its true edge; `if a || b` holds !a and !b on its false edge. Every condition is in edgeCond's canonical form.
+func edgeConjuncts(e edge) []condFact {
+	cond, truth, ok := edgeCond(e)
+	if !ok {
+		return nil
+	}
+	var out []condFact
+	var expand func(v ssa.Value, t bool, d int)
+	expand = func(v ssa.Value, t bool, d int) {
+		for {
+			if u, isU := v.(*ssa.UnOp); isU && u.Op == token.NOT {
+				v, t = u.X, !t
+				continue
+			}
+			break
+		}
+		if ph, isPhi := v.(*ssa.Phi); isPhi && d < 4 {
+			// a && b: phi [false, ..., b] — on the true outcome every operand is true, the short-circuit constants are false
+			// a || b: phi [true, ..., b] — on the false outcome every operand is false
+			allConst := func(want bool) bool {
+				n := 0
+				for _, ed := range ph.Edges {
+					if k, isK := ed.(*ssa.Const); isK {
+						if k.Value == nil || (k.Value.ExactString() == "true") != want {
+							return false
+						}
+						n++
+					}
+				}
+				return n > 0
+			}
+			if (t && allConst(false)) || (!t && allConst(true)) {
+				for _, ed := range ph.Edges {
+					if _, isK := ed.(*ssa.Const); isK {
+						continue
+					}
+					expand(ed, t, d+1)
+				}
+				// the earlier operands: each constant edge comes from a block whose branch decided it
+				for i, ed := range ph.Edges {
+					if _, isK := ed.(*ssa.Const); !isK {
+						continue
+					}
+					pred := ph.Block().Preds[i]
+					if c2 := condOf(pred); c2 != nil {
+						// the constant edge is the short-circuit exit: on the overall outcome t the exit was NOT taken,
+						// i.e. the other successor of pred was
+						for si, sb := range pred.Succs {
+							if sb != ph.Block() {
+								cc, tt, okc := edgeCond(edge{pred, si})
+								if okc {
+									expand(cc, tt, d+1)
+								}
+							}
+						}
+					}
+				}
+				return
+			}
+		}
+		if b, isB := v.(*ssa.BinOp); isB && b.Op == token.NEQ {
+			eq, have := eqFormOf[b]
+			if !have {
+				eq = &ssa.BinOp{Op: token.EQL, X: b.X, Y: b.Y}
+				eqFormOf[b] = eq
+			}
+			v, t = eq, !t
+		}
+		out = append(out, condFact{v, t})
+	}
+	expand(cond, truth, 0)
+	return out
 }
 
 // allReturnsAreErrorsFrom: every Return reachable from block b yields a definitely non-nil error.
@@ -270,8 +354,11 @@ func edgesWhere(fn *ssa.Function, pred func(cond ssa.Value, truth bool) bool) []
 	for _, b := range fn.Blocks {
 		for i := range b.Succs {
 			e := edge{b, i}
-			if c, t, ok := edgeCond(e); ok && pred(c, t) {
-				out = append(out, e)
+			for _, cj := range edgeConjuncts(e) {
+				if pred(cj.cond, cj.truth) {
+					out = append(out, e)
+					break
+				}
 			}
 		}
 	}
